@@ -11,7 +11,7 @@
    model needed a second marker for it; now the cursor clause is proved outright.) *)
 From Coq Require Import ZArith List Bool Lia.
 Import ListNotations.
-From Urwid Require Import WidgetDims WidgetDimsProofs WidgetDimsFrame WidgetDimsOverlay WidgetDimsColsArith WidgetDimsCols WidgetDimsTree WidgetDimsFixed WidgetDimsFixedPile WidgetDimsFixedTree.
+From Urwid Require Import WidgetDims WidgetDimsProofs WidgetDimsFrame WidgetDimsOverlay WidgetDimsColsArith WidgetDimsCols WidgetDimsTree WidgetDimsFixed WidgetDimsFixedPile WidgetDimsFixedCols WidgetDimsFixedTree WidgetDimsClip WidgetDimsOverlayPack WidgetDimsExt.
 Open Scope Z_scope.
 
 Definition WellFormed (w : widget) : Prop := wf_b w = true.
@@ -35,10 +35,11 @@ Definition render_contract_full : Prop :=
         proved outright (no marker).  The Columns width arithmetic (widths >= 0, with dividers at most
         maxcol) is C19's theorem column_widths_total_shape, transferred to this model by
         WidgetDimsColsArith.column_widths_eq.
-        Not covered: fixed sizing, Overlay with width='pack' (fixed top widget), clip Padding, Columns
-        with a 'pack' column whose widget is a FIXED-capable container, or a non-box column holding a
-        widget that is not a flow widget (see _refuted below for the part of the full statement that is
-        false of the faithful model). ---- *)
+        Not covered here (see render_contract_partial_ext and fixed_contract_partial below): fixed
+        sizing, Overlay with width='pack', clip Padding.  Not covered at all: Columns with a 'pack'
+        column whose widget is a FIXED-capable container, or a non-box column holding a widget that is
+        not a flow widget (see _refuted below for the part of the full statement that is false of the
+        faithful model). ---- *)
 Theorem render_contract_partial :
   forall w sz f, leaves_ok w -> WellFormed w -> proved_fragment w = true ->
     sz <> SFixed -> valid_for (m_sizing (denote w)) sz ->
@@ -52,12 +53,31 @@ Proof.
 Qed.
 Print Assumptions render_contract_partial.
 
+(* ---- the same for the larger fragment [proved_fragment2] that adds the two constructors rendering a
+        child with size (): Padding(width='clip') and Overlay(width='pack') (a fixed top widget, clipped
+        when it is wider than the screen).  Their fixed child must lie in [proved_fragment] and
+        [fixed_fragment]; the leaves below it also need the fixed leaf hypothesis (leaves_ok2). ---- *)
+Theorem render_contract_partial_ext :
+  forall w sz f, leaves_ok2 w -> WellFormed w -> proved_fragment2 w = true ->
+    sz <> SFixed -> valid_for (m_sizing (denote w)) sz ->
+    match m_render (denote w) sz f with
+    | Ok d => meets (denote w) sz f d
+    | Err e => soft e
+    end.
+Proof.
+  intros w sz f Hl Hw Hf Hn Hv.
+  exact (render_contract_from_good (denote w) sz f (contract_ext w Hw Hf Hl) Hn Hv).
+Qed.
+Print Assumptions render_contract_partial_ext.
+
 (* ---- FIXED sizing: render(()) has exactly the size pack(()) reports, for leaves, AttrMap / LineBox
         delegation, Padding with a given or pack width whose min_width does not exceed the width (the
         other fixed Paddings are the known finding refuted below), Overlay with a given or relative
-        width, and Pile (its 'pack' items are flow widgets by WellFormed: a fixed-only 'pack' item is the
-        known finding "Pile does not pad fixed-only children"); nodes that do not claim FIXED sizing are
-        never asked.  [fixed_fragment] says exactly which nodes are covered; Columns in fixed mode is not. ---- *)
+        width, Pile (its 'pack' items are flow widgets by WellFormed: a fixed-only 'pack' item is the
+        known finding "Pile does not pad fixed-only children"), Columns and therefore LineBox; nodes that
+        do not claim FIXED sizing are never asked.  [fixed_fragment] says exactly which nodes are covered:
+        everything in the box/flow fragment except the fixed Paddings of the known finding and relative
+        Overlay widths above 100%. ---- *)
 Theorem fixed_contract_partial :
   forall w f, leaves_ok w -> leaves_fx w -> WellFormed w -> proved_fragment w = true -> fixed_fragment w = true ->
     s_fixed (m_sizing (denote w)) = true ->
@@ -311,6 +331,10 @@ Proof. apply leaf_fx_sufficient; intros _ f; cbn; repeat split; auto; lia. Qed.
 Theorem pile_fixed_contract : forall l fp, l <> [] -> Forall pfx_ok l -> GoodFx (pile_sem l fp).
 Proof. exact pile_fx. Qed.
 Print Assumptions pile_fixed_contract.
+Theorem columns_fixed_contract : forall l d mw fp,
+  0 <= d -> 1 <= mw -> Forall cfx_ok l -> Exists (fun it => ci_box it = false) l -> GoodFx (cols_sem l d mw fp).
+Proof. exact cols_fx. Qed.
+Print Assumptions columns_fixed_contract.
 
 (* AttrMap(Padding(Text("ab cd"), 'center', 'pack', left=1, right=2)) and an Overlay of a given size *)
 Definition fixed_sample : widget := WAttr (WPadding (WLeaf wrap_leaf) 50 WPack None 1 2).
@@ -331,3 +355,29 @@ Example fixed_samples_in_scope :
       /\ m_pack (denote p) SFixed false = Ok (5, 2)
       /\ m_render (denote p) SFixed false = Ok (mkC 5 2 None true)).
 Proof. vm_compute. repeat split; reflexivity. Qed.
+
+(* LineBox(Text("ab cd")) as a fixed widget: 7 x 3 *)
+Example linebox_fixed :
+  WellFormed (linebox (WLeaf wrap_leaf)) /\ proved_fragment (linebox (WLeaf wrap_leaf)) = true
+  /\ fixed_fragment (linebox (WLeaf wrap_leaf)) = true
+  /\ m_pack (denote (linebox (WLeaf wrap_leaf))) SFixed false = Ok (7, 3)
+  /\ m_render (denote (linebox (WLeaf wrap_leaf))) SFixed false = Ok (mkC 7 3 None true).
+Proof. vm_compute. repeat split; reflexivity. Qed.
+
+(* Padding(Text("ab cd"), 'right', 'clip', left=1) and Overlay(Text("ab cd"), SolidFill, 'center', 'pack',
+   'middle', 'pack'): in the extended fragment; clipped at 3 columns *)
+Definition clip_sample : widget := WPadding (WLeaf wrap_leaf) 100 WClip None 1 0.
+Definition overlay_pack_sample : widget :=
+  WOverlay (WLeaf wrap_leaf) (WLeaf solid_leaf) (mkOv 50 WPack 50 HPack None None 0 0 0 0).
+Example ext_samples_in_scope :
+  WellFormed clip_sample /\ proved_fragment2 clip_sample = true
+  /\ m_render (denote clip_sample) (SFlow 9) false = Ok (mkC 9 1 None true)
+  /\ m_render (denote clip_sample) (SFlow 3) false = Ok (mkC 3 1 None true)
+  /\ WellFormed overlay_pack_sample /\ proved_fragment2 overlay_pack_sample = true
+  /\ m_render (denote overlay_pack_sample) (SBox 9 3) false = Ok (mkC 9 3 None true)
+  /\ m_render (denote overlay_pack_sample) (SBox 3 1) false = Ok (mkC 3 1 None true).
+Proof. vm_compute. repeat split; reflexivity. Qed.
+Example ext_samples_leaves : leaves_ok2 clip_sample /\ leaves_ok2 overlay_pack_sample.
+Proof.
+  cbn. repeat (first [exact wrap_ok | exact solid_ok | exact wrap_fx | split]).
+Qed.
